@@ -82,6 +82,23 @@ Definition s_str (s : string) : sexp := SAtom s.
 Definition s_strs (l : list string) : sexp := SList (map SAtom l).
 Definition s_Z (z : Z) : sexp := SAtom (dec_Z z).
 Definition s_nat (n : nat) : sexp := SAtom (dec_nat n).
+(* cpp_vars.unique_name for a class variable: every character of the (user-supplied) name that cannot be part of a C++
+   identifier becomes "_" - one "_" per CHARACTER: in the UTF-8 bytes of the name a lead byte gives "_" and the
+   continuation bytes that follow it give nothing (a continuation byte that follows nothing gives "_") *)
+Definition ident_char (c : ascii) : bool :=
+  let n := nat_of_ascii c in
+  (((48 <=? n) && (n <=? 57)) || ((65 <=? n) && (n <=? 90)) || ((97 <=? n) && (n <=? 122)) || (n =? 95))%nat.
+Fixpoint cident_aux (in_seq : bool) (s : string) : string :=
+  match s with
+  | EmptyString => EmptyString
+  | String c r =>
+      let n := nat_of_ascii c in
+      if (n <? 128)%nat then String (if ident_char c then c else "_"%char) (cident_aux false r)
+      else if (n <? 192)%nat then (if in_seq then cident_aux true r else String "_"%char (cident_aux false r))
+      else String "_"%char (cident_aux true r)
+  end.
+Definition cident (s : string) : string := cident_aux false s.
+
 Definition s_bool (b : bool) : sexp := SAtom (if b then "true" else "false").
 Definition s_tag (t : string) (l : list sexp) : sexp := SList (SAtom t :: l).
 Definition s_err (e : err) : sexp := s_tag "error" [SAtom (err_name e)].
